@@ -6,3 +6,4 @@ export CARGO_NET_OFFLINE=true
 cargo build --release --offline -p mon
 cargo build --release --offline -p mon --features grammar-extras
 cargo build --release --offline -p mon_fixed
+cargo build --release --offline -p mon_meta
